@@ -200,6 +200,11 @@ def gen_cases(rng, tier):
     add(MAGIC[:5], 1000, ["short-magic"])
     add(MAGIC, 1000, ["no-members"])
     add(b"!<arch>\r" + header("a/", 5, 0, 0, 644, 0), 1000, ["bad-global-magic"])
+    # members larger than any plausible copy buffer, of sizes that are no multiple of one, with members after them
+    for big in (131073, 200001, 262144 + 4097):
+        body = bytes((k * 7 + k // 251) % 256 for k in range(big))
+        add(MAGIC + header("first.o/", 5000, 1, 2, 100644, 10) + b"0123456789" + header("big.o/", 1700000000, 3, 4, 100644, big) + body + (b"\n" if big % 2 else b"")
+            + header("last.o/", 1700000000, 5, 6, 100644, 3) + b"xyz\n", 1600000000, ["big-member-%d" % big])
     add(MAGIC + header("a/", 5000, 1, 0, 644, 4294967295) + b"xx", 1000, ["size-max"])
     add(MAGIC + header("a/", 5000, 1, 0, 644, 4294967294) + b"xx", 1000, ["size-max-1"])
     add(MAGIC + header("a/", "", 1, 0, 644, 0), 1000, ["blank-mtime"])
